@@ -70,6 +70,9 @@ def sort_key(x):
 def neg(x):
     return 0 - x
 
+def shipped(x):
+    return x + 1000
+
 def combine(a, w=1):
     return a * w
 ''',
@@ -80,6 +83,7 @@ from .helpers import scaled as sc, sort_key as skey
 from . import consts
 from .consts import FLAG as FLAG_D, PAIR as PAIR_D, NOTHING as NOTHING_D, ITEMS as ITEMS_D, CONF as CONF_D, NAME as NAME_D
 import extmod
+import reexp
 
 CALLS = []
 
@@ -115,6 +119,10 @@ def leaf_href():
     CALLS.append("leaf_href")
     return list(map(helpers.neg, [1, 2]))
 
+def leaf_reexp():
+    CALLS.append("leaf_reexp")
+    return reexp.shipped(1)
+
 def leaf_ext():
     CALLS.append("leaf_ext")
     return extmod.ext_fun(2)
@@ -122,6 +130,10 @@ def leaf_ext():
 def with_args(a, b=2, c="z"):
     CALLS.append("with_args")
     return "%s/%s/%s" % (a, b, c)
+
+def with_values(a, b=None, c=None):
+    CALLS.append("with_values")
+    return "v=%s;%s;%s" % (a, b, c)
 
 def with_runtime(x):
     CALLS.append("with_runtime")
@@ -143,6 +155,7 @@ def root():
     out["direct"] = dds.keep("/c/direct", leaf_direct)
     out["kw"] = dds.keep("/c/kw", leaf_kw)
     out["href"] = dds.keep("/c/href", leaf_href)
+    out["reexp"] = dds.keep("/c/reexp", leaf_reexp)
     out["ext"] = dds.keep("/c/ext", leaf_ext)
     out["args"] = dds.keep("/c/args", with_args, 1, c="y")
     out["rt"] = dds.keep("/c/rt", with_runtime, out["scaled"])
@@ -154,8 +167,13 @@ EXT = '''
 def ext_fun(x):
     return x * 100
 '''
+# a module that is NOT accepted and re-exports a function defined in the accepted package
+REEXP = '''
+import os, importlib
+shipped = importlib.import_module(os.environ.get("CORPUS_PKG", "corp") + ".helpers").shipped
+'''
 
-ALL = ["/c/plain", "/c/scaled", "/c/items", "/c/flag", "/c/pair", "/c/direct", "/c/kw", "/c/href", "/c/ext", "/c/args", "/c/rt", "/c/ann_root", "/c/annotated"]
+ALL = ["/c/plain", "/c/scaled", "/c/items", "/c/flag", "/c/pair", "/c/direct", "/c/kw", "/c/href", "/c/reexp", "/c/ext", "/c/args", "/c/rt", "/c/ann_root", "/c/annotated", "/c/top_args"]
 # edits: (name, file, old, new, kept paths whose cone contains the edit [besides the root], value must change for these)
 EDITS = [
     ("callee body (transitive)", "corp/helpers.py", "return 10", "return 11", ["/c/scaled", "/c/rt"]),
@@ -172,6 +190,7 @@ EDITS = [
     ("callee called only inside a keyword-argument value", "corp/helpers.py", "return 7", "return 9", ["/c/kw", "/c/rt"]),
     ("function referenced only as a keyword-argument value", "corp/helpers.py", "return -x", "return x", ["/c/kw", "/c/rt"]),
     ("function referenced through a module attribute", "corp/helpers.py", "return 0 - x", "return 1 - x", ["/c/href", "/c/rt"]),
+    ("accepted function reached through a non-accepted re-exporting module", "corp/helpers.py", "return x + 1000", "return x + 2000", ["/c/reexp", "/c/rt"]),
     ("unused variable", "corp/consts.py", "UNUSED = 10", "UNUSED = 11", []),
     ("unrelated definition added", "corp/helpers.py", "def untouched():", "def brand_new():\n    return 0\n\ndef untouched():", []),
     ("non-accepted module body", "extmod.py", "return x * 100", "return x * 200", []),
@@ -198,8 +217,13 @@ if mode == "plain":
 pkg = os.environ.get("CORPUS_PKG", "corp")
 import importlib
 pipe = importlib.import_module(pkg + ".pipe")
+import pathlib
+# a top-level keep whose arguments are run-time values (hashed by value): relative / absolute / pure paths, text with
+# CR LF and LF, nested containers
+TOP_ARGS = (pathlib.Path("rel/file.txt"),)
+TOP_KW = {"b": {"k": [1, "x\r\ny", "x\ny"], "p": pathlib.Path("/abs/f")}, "c": pathlib.PurePosixPath("u/v")}
 if mode == "plain":
-    print(json.dumps({"value": repr(pipe.root())})); sys.exit(0)
+    print(json.dumps({"value": repr((pipe.root(), pipe.with_values(*TOP_ARGS, **TOP_KW)))})); sys.exit(0)
 if mode == "history":
     # evaluate f (which calls g); remove g and the call from the module in this same process; evaluate f again
     import importlib, linecache
@@ -250,8 +274,14 @@ for i in range(opts.get("warmup", 0)):
     dds.eval(pipe.root)
 pipe.CALLS.clear()
 err = None
+calls1 = []
 try:
-    v = dds.keep("/c/ann_root", pipe.root)
+    v1 = dds.keep("/c/ann_root", pipe.root)
+    # CALLS is itself a tracked module variable of every corpus function: it must hold the same value (empty) whenever a
+    # signature is computed
+    calls1 = list(pipe.CALLS); pipe.CALLS.clear()
+    v = (v1, dds.keep("/c/top_args", pipe.with_values, *TOP_ARGS, **TOP_KW))
+    pipe.CALLS[:0] = calls1
 except BaseException as e:
     v = None; err = "%s: %s" % (type(e).__name__, str(e)[:200])
 import dds._api as api
@@ -273,6 +303,8 @@ def materialise(d):
             f.write(src.lstrip("\n"))
     with open(os.path.join(d, "extmod.py"), "w") as f:
         f.write(EXT.lstrip("\n"))
+    with open(os.path.join(d, "reexp.py"), "w") as f:
+        f.write(REEXP.lstrip("\n"))
     with open(os.path.join(d, "runner.py"), "w") as f:
         f.write(RUNNER)
 
@@ -290,13 +322,16 @@ def run(d, mode, opts=None, env_extra=None, cwd=None):
 def edit(d, rel, old, new):
     p = os.path.join(d, rel)
     s = open(p).read()
-    assert old in s, (rel, old)
-    open(p, "w").write(s.replace(old, new))
+    if old is None:  # revert: `new` is the saved original text of the file
+        open(p, "w").write(new)
+    else:
+        assert s.count(old) == 1, (rel, old, s.count(old))  # an edit touches exactly one place
+        open(p, "w").write(s.replace(old, new))
     # make sure the interpreter does not reuse a stale byte-code cache within the same second
     shutil.rmtree(os.path.join(os.path.dirname(p), "__pycache__"), ignore_errors=True)
 
 
-FUN_OF = {"/c/kw": "leaf_kw", "/c/href": "leaf_href", "/c/direct": "leaf_direct", "/c/plain": "leaf_plain", "/c/scaled": "leaf_scaled", "/c/items": "leaf_items", "/c/flag": "leaf_flag", "/c/pair": "leaf_pair", "/c/ext": "leaf_ext", "/c/args": "with_args", "/c/rt": "with_runtime", "/c/annotated": "annotated", "/c/ann_root": "root"}
+FUN_OF = {"/c/reexp": "leaf_reexp", "/c/top_args": "with_values", "/c/kw": "leaf_kw", "/c/href": "leaf_href", "/c/direct": "leaf_direct", "/c/plain": "leaf_plain", "/c/scaled": "leaf_scaled", "/c/items": "leaf_items", "/c/flag": "leaf_flag", "/c/pair": "leaf_pair", "/c/ext": "leaf_ext", "/c/args": "with_args", "/c/rt": "with_runtime", "/c/annotated": "annotated", "/c/ann_root": "root"}
 
 
 def main():
@@ -334,6 +369,7 @@ def main():
                         note(None, "code copied unchanged to another accepted module re-executed %s %s" % (cp["calls"], cp.get("error") or ""))
                     if cp["sigs"] != base["sigs"]:
                         note(None, "code copied unchanged to another accepted module gets other signatures for %s" % [p for p in ALL if cp["sigs"].get(p) != base["sigs"].get(p)])
+                original_text = open(os.path.join(d, rel)).read()
                 edit(d, rel, old, new)
                 after = run(d, "dds")
                 plain = run(d, "plain")
@@ -366,7 +402,7 @@ def main():
                             note(cls, "[%s] the signature of %s changed although the edit is outside its dependency cone" % (name, p))
                         if FUN_OF[p] in after["calls"]:
                             note(cls, "[%s] %s (kept at %s) was re-executed although the edit is outside its dependency cone" % (name, FUN_OF[p], p))
-                    edit(d, rel, new, old)  # revert
+                    edit(d, rel, None, original_text)  # revert
                     rev = run(d, "dds")
                     if rev["calls"]:
                         note(None, "[%s] after reverting the edit %s were re-executed" % (name, rev["calls"]))
